@@ -24,7 +24,9 @@ SPEC = dict(
     bounded=[dict(name='C15-bounded', script='bounded/C15.py')],
     replay_finder='bounded/C15.py',
     explanation='mass of a composition and the bracket tokenizer proved; round trip bounded',
-    proved_clauses=['glycan_mass of a dictionary of monosaccharide counts == the count-weighted sum of the tabulated masses of the monosaccharides the keys '
+    proved_clauses=['the composition of a glycan (dictionary input, _glycan_comp / glycan_comp): for ANY weighting of the element symbols its weighted total == '
+                    'the count-weighted sum of the totals of the monosaccharides\' compositions (name first, then synonym); unknown key raises',
+                    'glycan_mass of a dictionary of monosaccharide counts == the count-weighted sum of the tabulated masses of the monosaccharides the keys '
                     'denote (by name first, then by synonym), in the requested mode, rounded on request; an unknown key raises the glycan formula error '
                     '(contracts/glycanmass.py; the table enters abstractly, "every entry has both masses" is a precondition)',
                     'the mass of a composition is the sum of count x atomic mass over its entries (both modes, isotope entries, particles)',
